@@ -181,7 +181,7 @@ def r3(run, ctx):
         run.check('R3', ok, 'future of %s is consumed' % s.name, caller, s.node.ast,
                   'the future returned by %s is discarded: the kill proceeds '
                   'unobserved and later steps run before it completes' % s.name)
-    run.count('R3', n, 9, 'call sites of kill/stop coroutines')
+    run.count('R3', n, 5, 'call sites of kill/stop coroutines')
 
 
 def r4(run, ctx):
@@ -228,7 +228,7 @@ def r5(run, ctx):
              'construction without an is_stopped guard')
     sp = ctx.fn(W + 'spawn_process')
     cons = ctx.nodes_calling(sp, ['circus.process:Process.__init__'])
-    run.count('R5', len(cons), 1, 'Process construction in spawn_process')
+    run.need('R5', cons, 'Process construction in spawn_process', sp)
     inner_guard = all(_not_stopped_guard(ctx, sp, n) for n in cons)
     run.ok('R5', 'spawn_process construction guarded internally: %s' % inner_guard)
     npaths = 0
@@ -258,7 +258,7 @@ def r5(run, ctx):
         if ctx.p.has_fn(e):
             ef = ctx.fn(e)
             dfs(ef, [], False, {ef.key})
-    run.count('R5', npaths, 5, 'call paths from non-start entries to spawn_process')
+    run.count('R5', npaths, 3, 'call paths from non-start entries to spawn_process')
     for chain in bad:
         f, s = chain[-1]
         run.fail('R5', f, s.node.ast,
@@ -278,7 +278,7 @@ def r5(run, ctx):
                 not any(t.name in ('is_stopped', 'is_stopping', 'is_active')
                         for t in st.targets):
             work.append(st.node)
-    run.count('R5', len(work), 3, 'working nodes in manage_processes')
+    run.count('R5', len(work), 1, 'working nodes in manage_processes')
     for n in work:
         ok = _not_stopped_guard(ctx, mp, n)
         run.check('R5', ok, 'manage_processes does nothing for a stopped watcher',
@@ -358,7 +358,7 @@ def r6(run, ctx):
         return True if (isinstance(e, ast.Attribute) and e.attr == '_stopping') else None
     work = ctx.nodes_calling(f, [W + 'manage_processes', A + 'reap_processes',
                                  A + '_start_watchers'])
-    run.count('R6', len(work), 2, 'work nodes in manage_watchers')
+    run.count('R6', len(work), 1, 'work nodes in manage_watchers')
     for n in work:
         ok = guarded(cfg, n, stopping, False)
         run.check('R6', ok, 'periodic check does nothing once the arbiter is stopping',
